@@ -19,7 +19,7 @@
    [carries spi q o]: the end-to-end extension of q was decoded directly in
    front of the L4 layer and its first authenticator option o has 28 bytes of
    data, SPI spi and the algorithm of the time service. *)
-From ST Require Import Base.Ints Model.ScionGlue Model.ScionGlueOracle Model.DrkeyCache Proofs.ScionGlueProofs Proofs.DrkeyCacheProofs.
+From ST Require Import Base.Ints Model.ScionGlue Model.ScionGlueOracle Model.DrkeyCache Model.SvcSpao Proofs.ScionGlueProofs Proofs.DrkeyCacheProofs Proofs.SvcSpaoProofs.
 From Coq Require Import ZArith List Bool Lia.
 Import ListNotations.
 Open Scope Z_scope.
@@ -282,6 +282,17 @@ Theorem C13_key_cache_sound : forall K calls,
   Forall2 (fun cd r => forall k, snd r = Some k -> key_for K k (fst cd)) calls (krun [] calls).
 Proof. intros K calls H. exact (krun_sound K calls [] (empty_cache_genuine K) H). Qed.
 Print Assumptions C13_key_cache_sound.
+
+(* "With authentication enabled ... on either side" = enabled by configuration: for every
+   list of auth_modes and every number of SCION reference clocks and SCION peer clocks, the
+   clients the model of createClocks builds satisfy the wiring oracle (kind svc.spao evaluates
+   it on what the service's own loadConfig and createClocks build): all seven path clients of
+   every reference clock AND of every peer have SPAO enabled iff "spao" is among auth_modes,
+   and then all of them share one DRKey fetcher. *)
+Theorem C13_svc_spao_oracle_holds_on_model : forall modes nrefs npeers,
+  C13_svc_spao_ok modes nrefs npeers true (model_clocks modes nrefs npeers) = true.
+Proof. exact svc_spao_on_model. Qed.
+Print Assumptions C13_svc_spao_oracle_holds_on_model.
 
 (* ---- the hypotheses are satisfiable: a concrete authenticated exchange ---- *)
 (* a 16-byte checksum of the encoded MAC input: enough for the example *)
